@@ -113,6 +113,17 @@ pub fn desc_text(b: &BoardState) -> String {
     }
 }
 
+/// the text the ENGINE prints for this successor: its own `send_best_move_to_gui`, captured through
+/// the output hook ("bestmove e7e8q" -> "e7e8q")
+pub fn engine_bestmove_text(b: &BoardState) -> Result<String, String> {
+    crate::verif_hooks::arm_sink();
+    let r = catch(|| crate::uci::verif_send_best_move_to_gui(b));
+    let lines = crate::verif_hooks::take_sink();
+    r.map_err(|e| format!("send_best_move_to_gui panicked: {}", e))?;
+    let line = lines.into_iter().map(|x| x.1).find(|l| l.starts_with("bestmove ")).ok_or("send_best_move_to_gui printed no bestmove line")?;
+    Ok(line["bestmove ".len()..].to_string())
+}
+
 /// The key recomputed from scratch through the hasher's public getters only: placement, side to
 /// move, four castling rights, file of the en passant target.
 pub fn scratch_key(b: &BoardState, z: &ZobristHasher) -> u64 {
